@@ -444,6 +444,12 @@ func (s *Stats) Enumerate(t *testing.T, o CheckOpts, cells [][]Draw, prop func(c
 					case replayFail:
 						failed = x.msg
 					case abandonCase:
+					case scriptExhausted:
+						// an enumerated cell fixes a prefix of the draws; a history that asks for
+						// more than the cell provides simply ends there
+						s.mu.Lock()
+						s.classes["cell-ended-at-the-end-of-its-script"]++
+						s.mu.Unlock()
 					default:
 						panic(r)
 					}
